@@ -4,6 +4,7 @@ import (
 	"encoding/json"
 	"fmt"
 	"os"
+	"sort"
 	"strings"
 	"testing"
 	"time"
@@ -612,6 +613,116 @@ func TestLegESnapshot(t *testing.T) {
 	}
 }
 
+// TestLegFMemoryLimit: a cluster whose nodes have a memory limit (policy noeviction). Whether a write is admitted
+// is decided by the state machine, so it has to be decided identically everywhere: collections grown in place
+// past the limit, then further writes; afterwards all nodes must hold the same dataset, and whatever the leader
+// acknowledged must be readable on the leader.
+func TestLegFMemoryLimit(t *testing.T) {
+	if common.ReplayPath() != "" {
+		t.Skip()
+	}
+	defer common.Verdict(t, rec, "F")
+	limit := uint64(2500)
+	c, err := sut.NewClusterWith(3, func(i int) bool { return false }, limit)
+	if err != nil {
+		fmt.Println("HARNESS-ERROR: cluster:", err, "(inconclusive)")
+		return
+	}
+	defer c.Close()
+	l := c.Leader()
+	ops := []op{}
+	acked := map[string]string{}
+	do := func(db int, cmd ...string) sut.Reply {
+		_ = l.Select(db)
+		r := l.Do(cmd...)
+		ops = append(ops, op{Entry: "leader", DB: db, Cmd: cmd})
+		return r
+	}
+	do(0, "SADD", "s", "seed")
+	do(0, "ZADD", "z", "1", "seed")
+	do(1, "HSET", "h", "f", "v")
+	pad := strings.Repeat("p", 120)
+	refused := 0
+	for i := 0; i < 40; i++ {
+		// in-place growth (no admission check of its own), then writes that are admitted or refused by the limit
+		do(0, "SADD", "s", fmt.Sprintf("m%02d-%s", i, pad))
+		do(0, "ZADD", "z", fmt.Sprint(i), fmt.Sprintf("m%02d-%s", i, pad))
+		k, v := fmt.Sprintf("x%02d", i), fmt.Sprintf("v%02d", i)
+		r := do(i%2, "SET", k, v)
+		if r.Val.IsErr() {
+			refused++
+		} else {
+			acked[fmt.Sprintf("%d/%s", i%2, k)] = v
+		}
+	}
+	journal(ops)
+	for dk, v := range acked {
+		var db int
+		var k string
+		fmt.Sscanf(dk, "%d/%s", &db, &k)
+		_ = l.Select(db)
+		if r := l.Do("GET", k); r.Val.IsErr() || r.Val.IsNil() {
+			failCase(t, "F", ops, "the leader acknowledged SET %s %s in database %d, a read on the leader afterwards answers %s", k, v, db, r.String())
+		}
+	}
+	_ = l.Select(0)
+	// (The marker-based quiescence of the other legs cannot be used: the marker write itself may be refused at
+	// the limit. The nodes are polled until they have not changed for a second.)
+	view := func(n *sut.Node) string {
+		var parts []string
+		for _, db := range []int{0, 1} {
+			_ = n.Select(db)
+			for _, q := range [][]string{{"SMEMBERS", "s"}, {"ZRANGE", "z", "0", "-1", "WITHSCORES"}, {"HGETALL", "h"}} {
+				r := n.Do(q...)
+				el, _ := r.Val.Strings()
+				if el == nil {
+					var flat []string
+					for _, e := range r.Val.Elems {
+						flat = append(flat, e.Canon())
+					}
+					el = flat
+				}
+				sort.Strings(el)
+				parts = append(parts, fmt.Sprintf("db%d %s=%d:%s", db, q[1], len(el), trunc(strings.Join(el, ","), 60)))
+			}
+			for i := 0; i < 40; i++ {
+				k := fmt.Sprintf("x%02d", i)
+				if r := n.Do("GET", k); !r.Val.IsNil() && !r.Val.IsErr() {
+					parts = append(parts, fmt.Sprintf("db%d %s", db, k))
+				}
+			}
+		}
+		_ = n.Select(0)
+		return strings.Join(parts, " | ")
+	}
+	var views []string
+	stableSince := time.Now()
+	deadline := time.Now().Add(sut.Patience(15 * time.Second))
+	for {
+		cur := []string{}
+		for _, n := range c.Nodes {
+			cur = append(cur, view(n))
+		}
+		if strings.Join(cur, "\n") != strings.Join(views, "\n") {
+			views, stableSince = cur, time.Now()
+		}
+		if time.Since(stableSince) > time.Second || time.Now().After(deadline) {
+			break
+		}
+		time.Sleep(50 * time.Millisecond)
+	}
+	if time.Since(stableSince) <= time.Second {
+		fmt.Println("HARNESS-ERROR: the nodes kept changing (inconclusive)")
+		return
+	}
+	for i := 1; i < len(views); i++ {
+		if views[i] != views[0] {
+			failCase(t, "F", ops, "with a memory limit of %d bytes on every node (noeviction, %d writes refused by the leader) the nodes are stable but hold different datasets:\n%s: %s\n%s: %s", limit, refused, c.Nodes[0].ID, views[0], c.Nodes[i].ID, views[i])
+		}
+	}
+	rec.Case("F|memory-limit", refused > 0, map[string]any{"leg": "F (memory limit on every node)", "limit": limit, "writes": len(ops), "refused_by_leader": refused, "nodes": len(c.Nodes)})
+}
+
 func journal(ops []op) {
 	b, _ := json.MarshalIndent(map[string]any{"property": "C07", "leg": "D", "ops": ops, "failure": "the check process died while this case was running"}, "", " ")
 	_ = os.WriteFile("inflight.json", b, 0o644)
@@ -644,4 +755,11 @@ func TestReplay(t *testing.T) {
 			legA(t, rf.Ops)
 		}
 	})
+}
+
+func trunc(s string, n int) string {
+	if len(s) > n {
+		return s[:n] + "…"
+	}
+	return s
 }
